@@ -280,6 +280,12 @@ pub fn vgrow_cases(t: bool) -> Vec<Case> {
             }
         }
     }
+    // kind 14: a Vec with reserved capacity must not move when a splice (inexact size hint) fits
+    for &esz in sizes {
+        for n in [8u32, 32, 100] {
+            c.push(Case::VGrow { kind: 14, esz, n });
+        }
+    }
     for kind in 20..20 + SG_METHODS.len() as u8 {
         for n in [100u32, 1000, if t { 65536 } else { 16384 }] {
             c.push(Case::VGrow { kind, esz: 0, n });
@@ -325,6 +331,26 @@ fn vgrow_typed<T: Copy + 'static>(envp: *mut ExecEnv, kind: u8, n: usize, val: T
                 if vec.as_ptr() as usize != p0 || vec.capacity() != c0 {
                     return Some(format!("buffer moved or capacity changed at push {} of {} reserved (capacity {} -> {})", i + 1, n, c0, vec.capacity()));
                 }
+            }
+            None
+        }
+        14 => {
+            // n = reserved capacity; n/4 elements present, a splice replaces 1 element in the middle by 3 (surplus 2),
+            // the replacement iterator's size hint is (0, Some(n * 4)): the result fits, so nothing may move
+            let mut vec: BVec<T> = BVec::with_capacity_in(n, &bump);
+            for _ in 0..(n / 4).max(2) {
+                vec.push(val);
+            }
+            let _other = bump.alloc(7u64);
+            let (p0, c0, l0) = (vec.as_ptr() as usize, vec.capacity(), vec.len());
+            let many = n * 4;
+            let repl = (0..many).filter(move |i| *i < 3).map(move |_| val);
+            drop(vec.splice(1..2, repl));
+            if vec.len() != l0 + 2 {
+                return Some(format!("splice produced {} elements, expected {}", vec.len(), l0 + 2));
+            }
+            if vec.as_ptr() as usize != p0 || vec.capacity() != c0 {
+                return Some(format!("a splice that fits the reserved capacity ({} of {}) moved the buffer or changed the capacity ({} -> {})", vec.len(), c0, c0, vec.capacity()));
             }
             None
         }
@@ -392,6 +418,7 @@ fn vgrow_typed<T: Copy + 'static>(envp: *mut ExecEnv, kind: u8, n: usize, val: T
                 0 => "reserved_capacity_not_stable/with_capacity_in".into(),
                 1 => "reserved_capacity_not_stable/reserve".into(),
                 5..=13 => format!("vec_growth_not_geometric/{}", VG_METHODS[kind as usize - 5].split('(').next().unwrap()),
+                14 => "reserved_capacity_not_stable/splice".into(),
                 _ => "vec_growth_not_geometric".into(),
             };
             push("vec_capacity", key, format!("Vec<{} bytes> n={}: {}", esz, n, msg));
